@@ -41,7 +41,7 @@ def fails(keep):
     subprocess.run([binary, "-test.run", "^TestRun$", "-test.timeout", "0"], env=e, stdout=subprocess.DEVNULL, stderr=subprocess.DEVNULL, cwd=os.path.join(ROOT, "harness"))
     ok = False
     if os.path.exists(out):
-        p = subprocess.run([driver, pid], stdin=open(out), stdout=subprocess.PIPE, text=True)
+        p = subprocess.run([driver, os.environ.get("VERIF_DRIVER", pid)], stdin=open(out), stdout=subprocess.PIPE, text=True)
         for l in p.stdout.splitlines():
             try: v = json.loads(l)
             except Exception: continue
